@@ -278,6 +278,19 @@ def run(ctx):
             for cname in inames:
                 judge_ident(ctx, nm, nm, (), cname, ID_CONTEXTS[cname])
                 judge_ident(ctx, "ns." + nm, nm, ("ns",), cname, ID_CONTEXTS[cname])
+    # identifiers whose FIRST segment is spelled like a reserved word of the lexer (any case): with a namespace
+    # behind it every one is a field reference; alone, `any` / `all` are (they are operators only before "(")
+    if ctx.shard == 3 % ctx.nshards:
+        for kw in ("any", "all", "true", "false", "null", "not", "in", "eq", "and", "or", "add", "div", "mod"):
+            for sp0 in dict.fromkeys([kw, kw.upper(), kw.title(), kw[:-1] + kw[-1].upper(), kw.swapcase()]):
+                spellings = [sp0 + ".b", sp0 + ".NiFt.c4", "ns." + sp0, "ns." + sp0 + ".x"]
+                if kw in ("any", "all"):
+                    spellings.append(sp0)
+                for sp in spellings:
+                    *ns, nm = sp.split(".")
+                    for cname in inames:
+                        judge_ident(ctx, sp, nm, tuple(ns), cname, ID_CONTEXTS[cname])
+                ctx.cls("ident:reserved-first-segment")
     if ctx.shard == 2 % ctx.nshards:
         for nm in L.HEXLIKE_IDENTS:
             for cname in inames:
